@@ -23,6 +23,8 @@ pub struct Layout {
     pub raw_points: Vec<usize>,
     /// offsets of 48-byte compressed G1 points
     pub g1_points: Vec<usize>,
+    /// offsets of 96-byte compressed G2 points (opening keys)
+    pub g2_points: Vec<usize>,
     /// offsets of 32-byte scalars (a sample: first of each region)
     pub scalar_regions: Vec<(usize, usize)>,
     /// (offset, len) of sections: label, prover key, commit key, verifier key ...
@@ -315,6 +317,8 @@ pub fn verifier_strict(b: &[u8]) -> Result<Layout, String> {
     let h = g2_at(b, ok_off + 48)?;
     let xh = g2_at(b, ok_off + 144)?;
     lay.g1_points.push(ok_off);
+    lay.g2_points.push(ok_off + 48);
+    lay.g2_points.push(ok_off + 144);
     if bool::from(g.is_identity()) || bool::from(h.is_identity()) || bool::from(xh.is_identity()) {
         return Err("opening key contains the identity".into());
     }
@@ -337,6 +341,8 @@ pub fn params_strict(b: &[u8]) -> Result<Layout, String> {
         return Err("opening key contains the identity".into());
     }
     lay.g1_points.push(0);
+    lay.g2_points.push(48);
+    lay.g2_points.push(144);
     let k = (b.len() - 240) / 48;
     for i in 0..k {
         g1_at(b, 240 + 48 * i)?;
